@@ -139,6 +139,20 @@ def table(ctx, res):
             if not E.accepts(w):
                 bad += 1
                 first_bad = first_bad or (w, False)
+    # every reduction performed while running those strings popped exactly
+    # the right-hand side of the rule it reduced by (same language is not
+    # enough: `a.*` reduced through `quiet -> COLON` parses, but as `a:*`)
+    for (st, tok, rid), (found, w) in sorted(E.bad_reductions.items(),
+                                             key=str)[:3]:
+        r = E.rule_by_id[rid]
+        res.violation(f"lalr-table:reduce-mismatch:state{st}:{tok}", GEN,
+                      f"in state {st} with look-ahead {tok} the table reduces "
+                      f"by `{r.origin} -> {' '.join(r.expansion)}` while the "
+                      f"stack holds {list(found)} (first seen on "
+                      f"{spell(w)!r}): the parse tree - and so the meaning - "
+                      f"differs from what the rules say")
+    res.obligations += 1
+    res.discharged += 0 if E.bad_reductions else 1
     res.instance("lalr-table-vs-rules", GEN, strings=checked,
                  exhaustive_up_to=n_all, positive_up_to=n_pos)
     res.obligations += checked
@@ -423,6 +437,29 @@ def notify_flow(ctx, res):
     res.oblige(ok, "parse:value-error", mod.loc(fn),
                "invalid text must be reported as ValueError (LarkError is "
                "caught and re-raised)")
+    # the text reaches the LALR parser as given: the token language (what is
+    # a name, where whitespace separates tokens) is the lexer's business, and
+    # any rewriting in front of it changes which strings are accepted
+    def _verbatim(f, call_pred, what, key):
+        tp = f.args.args[0].arg
+        calls = [c for c in ast.walk(f) if isinstance(c, ast.Call)
+                 and call_pred(c)]
+        if len(calls) != 1 or not calls[0].args:
+            raise AnalysisError(f"{f.name}: call of {what} not found")
+        a = expand_locals(f, calls[0].args[0])
+        res.oblige(isinstance(a, ast.Name) and a.id == tp, key,
+                   mod.loc(calls[0]),
+                   f"{f.name} hands `{norm(a)[:60]}` to {what} instead of "
+                   f"its `{tp}` argument unchanged: strings outside the "
+                   f"documented language become acceptable (or acceptable "
+                   f"ones change meaning) before the grammar sees them")
+    _verbatim(fn, lambda c: isinstance(c.func, ast.Attribute)
+              and c.func.attr == "parse", "the generated parser",
+              "parse:text-verbatim")
+    cs = repo.func(PARSING, "compile_str")
+    res.instance("compile_str", mod.loc(cs))
+    _verbatim(cs, lambda c: norm(c.func) == "parse", "parse()",
+              "compile_str:text-verbatim")
     res.floor(8)
 
 
